@@ -66,6 +66,23 @@ STRENGTHENED = {
     "C11-mut_C11-r3m2": "missed at first (tuple assignment bound one name at a time); FnLib `swp`",
     "C12-mut_C12-r3m1": "missed at first (identical contributions collapsed in a set); ModelEval `Twin` reactions",
     "C12-mut_C12-r3m2": "missed at first (Jacobian lambdified over the key order of a supplied y0); closure built with y0 reversed",
+    # ---- round 3 (round 2 for C08/C17), the other properties -------------------------------------------------------
+    "C06-mut_C06-r3m1": "missed at first (branch symbol table copied only when the branch's own body assigns); Translate `PassOn` "
+                        "(empty then-branch), profile `guard` (nested fall-through ifs, self-referential re-bindings)",
+    "C06-mut_C06-r3m2": "missed at first (`if not value` treated a zero-valued local as unbound); chunk modules carry module floats "
+                        "named like locals / parameters (SHADOWS), corpus functions with zero-valued locals",
+    "C08-mut_C08-r2m2": "missed at first (multi-statement bodies exported by their last return only); UseBody: six multi-statement "
+                        "library bodies as regular members, invariant BodyAgrees",
+    "C09-mut_C09-r3m1": "missed at first (scanned parameter names matched by a pattern); naming schemes plain / keyword / underscore / "
+                        "operator / mixed carried in the scenario",
+    "C10-mut_C10-r3m1": "missed at first (normalisation divided the stored frames in place); ResultViewsMC tracks rawdiv / taint, "
+                        "invariant ResultUnchanged, raw frames snapshotted and compared after every read",
+    "C10-mut_C10-r3m2": "missed at first (surrogate coefficient taken from the first segment only); surrogate flux with the "
+                        "parameter-computed coefficient 2p, p differing between segments",
+    "C04-mut_C04-r3m2": "a model-edit defect (update_parameter ignoring a zero value): caught by C03 (C03-mut_C04-r3m2) after ModelEdit's "
+                        "value menu got 0",
+    "C16-mut_C16-r3m1": "a label-expansion defect (unit of a repeated substrate chosen by argument index): outside the families C16 "
+                        "compares; caught by C05, the owning check, see C05-mut_C16-r3m1",
 }
 rows = []
 for d in sorted(p for p in root.iterdir() if p.is_dir()):
